@@ -397,10 +397,15 @@ class OutgoingMessageHandler:
 
             return
 
+        superseded = message_buffer.set_messages.get(key) if message_buffer else None
         await gateway.transport.write(decoded_message)
-        if message_buffer:
-            # The written command supersedes an older buffered command.
-            message_buffer.set_messages.pop(key, None)
+        if (
+            message_buffer
+            and superseded is not None
+            and message_buffer.set_messages.get(key) is superseded
+        ):
+            # The written command supersedes the older buffered command.
+            message_buffer.set_messages.pop(key)
 
     @classmethod
     async def handle_internal(
